@@ -35,7 +35,14 @@ an expression of depth >= 2 and the numeric comparison was reached at >= 1 point
 General models never have `pi` inside the argument of sin/cos/tan (known sympy problem: an evaluating trigonometric function of an unevaluated
 sum containing pi drops terms); the hand-written pi-trig-* texts are the dedicated probes and a numeric difference of a model with pi inside a
 trigonometric argument is reported as C11:rhs-changed / monitor-changed:trig-of-unevaluated-sum-with-pi.  A sixth of the generated models has
-intermediates that mention a d<state>_dt name.  Failing models are delta-debugged (shrink.py) before being reported."""
+intermediates that mention a d<state>_dt name.  Failing models are delta-debugged (shrink.py) before being reported.
+Signatures name the mechanism, decided without gotranx: a numeric difference is C11:{rhs|monitor}-changed:<meaning>:<construct> where
+<meaning> says what the SAVED text means at the input according to the reference reader (saved-text-overflows, saved-text-undefined-at-the-input,
+saved-text-unreadable, saved-text-means-something-else = the writer changed the meaning, saved-text-means-the-same = reading / code
+generation treats a right text differently) and <construct> is the main construct of the shrunk model (shrinking keeps the meaning);
+component-membership-changed and reload-raises:StateNotFoundInComponent get :default-component-after-named-block when what moved is an
+assignment that the TEXT puts into the default component next to assignments of a named expressions block (for the exception: a state
+derivative) - the listed writer defect; a state / parameter / named-block assignment that moves keeps the bare signature."""
 
 DT = 0.01
 HEAD = "parameters(a=2.0, b=0.5)\nstates(x=1.5, y=2.0)\n"
@@ -284,7 +291,29 @@ def all_values(b, pt, schemes):
     return out
 
 
-def compare_numeric(ode, o2, text, points, res, add, ref):
+def saved_meaning(saved, pt, want, scale):
+    """what the SAVED text means at this input according to the reference reader (no gotranx): names the mechanism of a numeric difference.
+    want = {assignment name: value of the original module}.  'saved-text-overflows' (the saved form cannot be evaluated in floating point
+    here: e.g. a sigmoid written as a quotient of exponentials), 'saved-text-undefined-at-the-input', 'saved-text-unreadable' (not in the
+    reference's grammar), 'saved-text-means-something-else' (the writer changed the meaning), 'saved-text-means-the-same' (the text is
+    right: reading / code generation treats it differently)"""
+    try:
+        r2 = mg.RefModel(saved)
+        if not all(n in r2.assigns for n in want):
+            return "saved-text-unreadable"
+    except Exception:  # noqa: BLE001
+        return "saved-text-unreadable"
+    try:
+        p2 = cm.restrict_point(pt, r2)
+        vals, _ = r2.evaluate(p2["t"], p2["states"], p2["params"], names=list(want))
+    except mg.RefError as e:
+        return "saved-text-overflows" if "Overflow" in str(e) else "saved-text-undefined-at-the-input"
+    except Exception:  # noqa: BLE001
+        return "saved-text-unreadable"
+    return "saved-text-means-the-same" if all(cm.vclose(vals[n], w, max(scale, r2.last_maxabs)) for n, w in want.items()) else "saved-text-means-something-else"
+
+
+def compare_numeric(ode, o2, text, points, res, add, ref, saved=""):
     schemes = ["explicit_euler", "generalized_rush_larsen"]
     b1 = None
     for sch in (schemes, schemes[:1], []):
@@ -360,12 +389,15 @@ def compare_numeric(ode, o2, text, points, res, add, ref):
                 continue
             names = sorted(real)
             pi_terr = ref is not None and ref.has_pi_in_trig()  # territory of the known sympy problem: never a general model
-            if what == "rhs":
-                sig = f"C11:rhs-changed:{'trig-of-unevaluated-sum-with-pi' if pi_terr else cm.main_feature(text, ['d' + n + '_dt' for n in names]) if ref is not None else 'unknown'}"
-                base = "C11:rhs-changed"
-            elif what == "monitor":
-                base = "C11:monitor-changed"
-                sig = f"{base}:{'trig-of-unevaluated-sum-with-pi' if pi_terr else cm.main_feature(text, names) if ref is not None else 'unknown'}"
+            if what in ("rhs", "monitor"):
+                # <mechanism> from the saved text read by the reference, then <construct> of the (shrunk) model; shrinking keeps the mechanism
+                anames = ["d" + n + "_dt" for n in names] if what == "rhs" else names
+                base = f"C11:{what}-changed"
+                if pi_terr:
+                    sig = f"{base}:trig-of-unevaluated-sum-with-pi"
+                else:
+                    base += ":" + saved_meaning(saved, pt, {a: v1[what][n] for a, n in zip(anames, names)}, scale)
+                    sig = f"{base}:{cm.main_feature(text, anames) if ref is not None else 'unknown'}"
             else:
                 sig = base = f"C11:scheme-changed:{what.split(':')[1]}"
             add(sig, f"{what} values of {names[:4]} differ between the original and the reloaded model", {n: v1[what][n] for n in names[:6]}, {n: real[n] for n in names[:6]},
@@ -452,7 +484,7 @@ def roundtrip(text, points, res, shr, ode=None, what="model", upto=None):
     stage[0] = "numeric"
     if points is None:
         points = default_points(ode) if ref is None else mg.valid_points(ref, __import__("random").Random(cm.sha(text)), 3)
-    npts = compare_numeric(ode, o2, text, points, res, add, ref)
+    npts = compare_numeric(ode, o2, text, points, res, add, ref, saved)
     if npts and ref is not None and (ref.inter_names or ref.max_depth() >= 2):
         res["nontrivial"].append(cm.sha(text))
     elif npts and ref is None:
